@@ -131,6 +131,9 @@ def build(root: Path) -> None:
             f.write(content)
     (root / "bad.yaml").write_text("nesting: [unclosed\n  max: {\n")
     (root / "bad.json").write_text('{"nesting": {"max_nesting_depth": 3,}')
+    (root / "list.yaml").write_text("- nesting\n- srp\n")
+    (root / "scalar.yaml").write_text("nesting max 1\n")
+    (root / "array.json").write_text('[{"nesting": {"max_nesting_depth": 3}}]\n')
 
 
 def argv_for(cmd: str, fault: str, inp: str, fmt: str) -> tuple[list[str], str]:
@@ -151,6 +154,8 @@ def argv_for(cmd: str, fault: str, inp: str, fmt: str) -> tuple[list[str], str]:
         return pre + ["--config", "bad.yaml"] + tgt, "proj"
     if fault == "malformedJson":
         return pre + ["--config", "bad.json"] + tgt, "proj"
+    if fault in ("listYaml", "scalarYaml", "arrayJson"):
+        return pre + ["--config", {"listYaml": "list.yaml", "scalarYaml": "scalar.yaml", "arrayJson": "array.json"}[fault]] + tgt, "proj"
     if fault == "malformedProjectYaml":
         return pre + tgt, "projbad"
     return pre + tgt, "proj"
@@ -261,7 +266,7 @@ def run(chk) -> None:
                        "text rendering is matched block-wise against the JSON violations in the documented "
                        "two-line shape (column omitted when 0)"]
     r = tlc.run("Run", "mc/Run.cfg", workers=1, timeout=300)
-    chk.add_tlc("Run exhaustive (9 faults x 4 inputs x 3 formats)", r)
+    chk.add_tlc("Run exhaustive (12 faults x 4 inputs x 3 formats)", r)
     if r.violation:
         raise MachineryError("Run.tla invariants violated:\n" + r.stdout[-1500:])
     cases = tlc.parse_cases(r.stdout)
